@@ -6,6 +6,7 @@ package interp
 // time.Now/Since (a fixed, monotonically advancing model clock).
 
 import (
+	"fmt"
 	"go/token"
 	"go/types"
 	"sort"
@@ -178,7 +179,24 @@ func init() {
 	reg("(*sync.WaitGroup).Wait", func(i *interpreter, fr *frame, args []value) value {
 		p := args[0].(*value)
 		if i.env.wg[p] > 0 {
-			unsupportedf("sync.WaitGroup.Wait with outstanding goroutines (goroutines started by the code under test are captured, not run)")
+			if i.env.sched != nil {
+				// under the scheduler the waiter is a blocked thread: whoever calls
+				// Done runs as another thread (e.g. the flusher driven by vRunSpawned)
+				i.env.sched.waitUntil(func() bool { return i.env.wg[p] <= 0 }, "sync.WaitGroup.Wait")
+				return nil
+			}
+			if i.env.inSpawn {
+				unsupportedf("sync.WaitGroup.Wait with outstanding goroutines inside a spawned goroutine")
+			}
+			// the waiter blocks: the goroutines started by the code under test
+			// (captured at `go`) run meanwhile, for a bounded number of their
+			// polling periods; a counter still positive after that is a call
+			// that does not return
+			const waitBudget = 64
+			i.runSpawned(waitBudget)
+			if i.env.wg[p] > 0 {
+				panic(pathEnd{"deadlock", fmt.Sprintf("sync.WaitGroup.Wait still blocked after %d polling periods of the goroutine(s) it waits for", waitBudget)})
+			}
 		}
 		return nil
 	})
